@@ -347,18 +347,24 @@ class Scratch:
         if not p.exists():
             raise Undecided(f"anchor lost: file {ac['file']}")
         lines = p.read_text().split("\n")
-        # find impl header, then the signature after it
-        hdr = [i for i, l in enumerate(lines) if l.strip() == ac["impl"].strip()]
-        if len(hdr) != 1:
-            raise Undecided(f"anchor lost: impl header {ac['impl']!r} occurs {len(hdr)} times in {ac['file']}")
-        sig = [i for i, l in enumerate(lines) if i > hdr[0] and l.strip() == ac["fn"].strip()]
-        if not sig:
-            raise Undecided(f"anchor lost: fn {ac['fn']!r} in {ac['file']}")
-        i = sig[0]
-        # do not cross into another impl
-        for l in lines[hdr[0] + 1:i]:
-            if re.match(r"^impl\b", l):
-                raise Undecided(f"anchor lost: fn {ac['fn']!r} not inside {ac['impl']!r}")
+        # find impl header (or "-" for a free function), then the signature after it
+        if ac["impl"].strip() == "-":
+            sig = [i for i, l in enumerate(lines) if l == ac["fn"].strip()]  # unindented: a free fn of the file
+            if len(sig) != 1:
+                raise Undecided(f"anchor lost: free fn {ac['fn']!r} occurs {len(sig)} times in {ac['file']}")
+            i = sig[0]
+        else:
+            hdr = [i for i, l in enumerate(lines) if l.strip() == ac["impl"].strip()]
+            if len(hdr) != 1:
+                raise Undecided(f"anchor lost: impl header {ac['impl']!r} occurs {len(hdr)} times in {ac['file']}")
+            sig = [i for i, l in enumerate(lines) if i > hdr[0] and l.strip() == ac["fn"].strip()]
+            if not sig:
+                raise Undecided(f"anchor lost: fn {ac['fn']!r} in {ac['file']}")
+            i = sig[0]
+            # do not cross into another impl
+            for l in lines[hdr[0] + 1:i]:
+                if re.match(r"^impl\b", l):
+                    raise Undecided(f"anchor lost: fn {ac['fn']!r} not inside {ac['impl']!r}")
         indent = re.match(r"\s*", lines[i]).group(0)
         new = [indent + f"#[cfg_attr(kani, {a})]" for a in ac["attrs"]]
         lines[i:i] = new
